@@ -2,7 +2,7 @@
    Model of Python's base64.b64encode and of b64decode on well-formed input. *)
 From Coq Require Import List NArith Bool.
 Import ListNotations.
-Open Scope N_scope.
+Local Open Scope N_scope.
 
 Definition byte_ok (b : N) : bool := b <? 256.
 
